@@ -1,7 +1,7 @@
 (** C08 — external representations round-trip: property theorems only. *)
-From Coq Require Import ZArith List.
+From Coq Require Import ZArith List Bool.
 From ChibiV Require Import C08.Datum C08.Tables Gen.C08_Tables Gen.C08_Leaf C08.Write C08.Read C08.Proofs C08.Proofs2 C08.Labels C08.LabelProofs
-  C08.Model3 C08.FloSpec C08.CharProofs C08.CompoundProofs C08.FloProofs C08.LabelVecProofs C08.Numbers C08.NumberProofs.
+  C08.Model3 C08.Model4 Gen.C08_Lib38 C08.Lib38Proofs C08.FloSpec C08.CharProofs C08.CompoundProofs C08.FloProofs C08.LabelVecProofs C08.Numbers C08.NumberProofs C08.InjProofs C08.SRead C08.SReadProofs C08.SReadChar C08.SReadCharProofs.
 Import ListNotations.
 Local Open Scope Z_scope.
 
@@ -127,3 +127,100 @@ Theorem exact_complex_roundtrip : forall f re im rest,
   read_num_token f (write_xnum (XCpx re im) ++ rest) = NOk (XCpx re im) rest.
 Proof. exact complex_roundtrip_ok. Qed.
 Print Assumptions exact_complex_roundtrip.
+
+(* ---- round 4 ---- *)
+
+(* the hand-written copies inside the model of the library writer's character-name table (lib/srfi/38.scm
+   escaped-chars) and of the constants of sexp_read_float_tail's strtod path (SEXP_FLOAT_DIGITS_LEN, the
+   bound of |exponent|) are what gen/c08_lib38.py regenerated from the checked tree on this run: the model
+   functions swrite_char and dec2flo_strtod, unfolded, are stated over the regenerated values *)
+Theorem lib38_regenerated :
+  escaped_chars_38_gen = ref_escaped_chars_38 /\
+  float_digits_len_gen = ref_float_digits_len /\
+  (forall strtod fmt_0f i2d old_arith whole fr e,
+     dec2flo_strtod strtod fmt_0f i2d old_arith whole fr e =
+     let w := fmt_0f (i2d whole) in
+     if (Z.of_nat (length w + length fr) <? float_digits_len_gen) && (Z.abs e <? float_exp_bound_gen)
+     then strtod (w ++ fr ++ 101 :: write_int (e - Z.of_nat (length fr)))
+     else old_arith whole fr e) /\
+  (forall c, swrite_char c =
+     35 :: 92 :: match find (fun p => fst p =? c) escaped_chars_38_gen with
+                 | Some p => snd p
+                 | None => utf8_encode c
+                 end).
+Proof. exact lib38_regenerated_ok. Qed.
+Print Assumptions lib38_regenerated.
+
+(* the library pair's writer: the text (scheme write) emits for a tree - lib/srfi/38.scm wr-one: its own
+   pair loop (" " between elements, " . " before a non-list tail), its own vector loop, its own character arm
+   (swrite_char), "()" "#t" "#f", everything else through the native writer - followed by a delimiter or the end
+   of input, is read back by the model of sexp_read_raw as the same datum (scheme-write -> native-read for all
+   compound data without flonum leaves).  Same visible fuel premise as list_vector_bytes_roundtrip. *)
+Theorem scheme_write_roundtrip : forall fmt_g scan_g dec2flo d f rest,
+  wfd0 d -> (height d + 2 <= f)%nat -> at_delim rest = true ->
+  read_raw dec2flo f (swrite fmt_g scan_g d ++ rest) = Ok (TDatum d) rest.
+Proof. exact scheme_write_roundtrip_ok. Qed.
+Print Assumptions scheme_write_roundtrip.
+
+(* the same with flonum leaves (any double that is not a NaN), under the libc hypotheses of theorem 10 *)
+Theorem scheme_write_roundtrip_flonums : forall fmt_g scan_g strtod fmt_0f i2d old_arith,
+  libc_flonum fmt_g scan_g strtod fmt_0f i2d ->
+  forall d f rest, wfd flo_leaf_ok d -> (height d + 2 <= f)%nat -> at_delim rest = true ->
+  read_raw (dec2flo_strtod strtod fmt_0f i2d old_arith) f (swrite fmt_g scan_g d ++ rest) = Ok (TDatum d) rest.
+Proof. exact scheme_write_roundtrip_flonums_ok. Qed.
+Print Assumptions scheme_write_roundtrip_flonums.
+
+(* the two writers print the SAME text for every datum (flonum leaves included, any libc) none of whose
+   character leaves has two different texts; printable ASCII and the named characters have one text
+   (CompoundProofs.same_char_text_ascii), so the texts differ only below unnamed control characters and
+   from U+0080 up (x-hex against raw UTF-8) *)
+Theorem writers_agree : forall fmt_g scan_g d, same_char_text d = true ->
+  swrite fmt_g scan_g d = write fmt_g scan_g d.
+Proof. exact writers_agree_ok. Qed.
+Print Assumptions writers_agree.
+
+(* the text determines the datum: two data without flonum leaves that are written as the same text - by the same
+   writer, or one by sexp_write_one (text_of false) and the other by (scheme write) (text_of true) - are the same
+   datum: the writers never print two different data alike *)
+Theorem texts_determine_datum : forall fmt_g scan_g l1 l2 d1 d2, wfd0 d1 -> wfd0 d2 ->
+  text_of l1 fmt_g scan_g d1 = text_of l2 fmt_g scan_g d2 -> d1 = d2.
+Proof. exact texts_determine_datum_ok. Qed.
+Print Assumptions texts_determine_datum.
+
+(* the same with flonum leaves (not NaN) under the libc hypotheses: two different doubles never share a text *)
+Theorem texts_determine_datum_flonums :
+  forall fmt_g scan_g strtod fmt_0f i2d, libc_flonum fmt_g scan_g strtod fmt_0f i2d ->
+  forall l1 l2 d1 d2, wfd flo_leaf_ok d1 -> wfd flo_leaf_ok d2 ->
+  text_of l1 fmt_g scan_g d1 = text_of l2 fmt_g scan_g d2 -> d1 = d2.
+Proof. exact texts_determine_datum_flonums_ok. Qed.
+Print Assumptions texts_determine_datum_flonums.
+
+(* the library reader's own string / |symbol| arm (C08/SRead.v: lib/srfi/38.scm read-delimited, read-escape-sequence,
+   read-number 16 for \x..;) and the native reader read every string text, and every barred symbol text, that the writers
+   emit (both writers print strings and symbols through sexp_write_one) as the same datum.  Partial: the library works on
+   characters; the model passes bytes >= 0x80 through unchanged, which is decoding + re-encoding on valid UTF-8 (C12) *)
+Theorem readers_agree_quoted_partial : forall dec2flo f bs rest, bytes bs ->
+  (sread_quoted (write_string bs ++ rest) = Ok (TDatum (Str bs)) rest /\
+   read_raw dec2flo (S f) (write_string bs ++ rest) = Ok (TDatum (Str bs)) rest) /\
+  (sym_needs_bars bs = true -> at_delim rest = true ->
+   sread_quoted (write_symbol bs ++ rest) = Ok (TDatum (Sym bs)) rest /\
+   read_raw dec2flo (S f) (write_symbol bs ++ rest) = Ok (TDatum (Sym bs)) rest).
+Proof. exact readers_agree_quoted_ok. Qed.
+Print Assumptions readers_agree_quoted_partial.
+
+(* the library reader's tables `delimiters` and `named-chars` (lib/srfi/38.scm), as regenerated on this run, are the
+   ones the model of its character arm (C08/SReadChar.v) uses *)
+Theorem lib38_reader_tables : delimiters_38_gen = delimiters_38 /\ named_chars_38_gen = named_chars_38.
+Proof. exact lib38_reader_tables_ok. Qed.
+Print Assumptions lib38_reader_tables.
+
+(* native-write -> scheme-read for characters: the library reader's character arm (lib/srfi/38.scm read-hash #\\ case,
+   read-named-char, read-name, its own delimiters and named-chars tables, string->number in base 16 for #\\x..) reads the
+   text sexp_write_one emits for EVERY Unicode scalar value (names of the regenerated sexp_char_names, printable ASCII,
+   x + 2/4/6 hex digits), followed by the end of input or one of the library's delimiters, as that character.
+   (The text (scheme write) emits for a non-ASCII character is the raw character: the port's UTF-8 decoder, C12.) *)
+Theorem scheme_read_char : forall c rest, 0 <= c <= 1114111 -> ~ (55296 <= c <= 57343) ->
+  lib_delim_start rest = true ->
+  sread_atom (write_char c ++ rest) = Ok (TDatum (Chr c)) rest.
+Proof. exact scheme_read_char_ok. Qed.
+Print Assumptions scheme_read_char.
